@@ -16,13 +16,18 @@ pub struct Case {
     pub p1: SourceSpec,
     pub p2: SourceSpec,
     pub s: SourceSpec,
+    /// how each stream is delivered to the chunker (read sizes / Pending); a stream is a stream however it arrives
+    #[serde(default = "ReadScript::full")]
+    pub r1: ReadScript,
+    #[serde(default = "ReadScript::full")]
+    pub r2: ReadScript,
 }
 
 /// boundaries (end offsets of chunks) relative to the start of S, only those inside S
-fn boundaries(cfg: &ChunkerCfg, prefix: &[u8], s: &[u8]) -> Result<BTreeSet<usize>, String> {
+fn boundaries(cfg: &ChunkerCfg, prefix: &[u8], s: &[u8], reads: &ReadScript) -> Result<BTreeSet<usize>, String> {
     let mut data = prefix.to_vec();
     data.extend_from_slice(s);
-    let chunks = run_bitar(cfg, Arc::new(data), &ReadScript::full())?;
+    let chunks = run_bitar(cfg, Arc::new(data), reads)?;
     let mut out = BTreeSet::new();
     for (off, bytes) in chunks {
         let end = off as usize + bytes.len();
@@ -49,14 +54,17 @@ fn run_case(c: &Case, rec: &mut CaseRec) -> Result<(), String> {
             p1.push(0xAB);
         }
     }
-    let b1 = boundaries(&c.cfg, &p1, &s)?;
-    let b2 = boundaries(&c.cfg, &p2, &s)?;
+    let b1 = boundaries(&c.cfg, &p1, &s, &c.r1)?;
+    let b2 = boundaries(&c.cfg, &p2, &s, &c.r2)?;
     let w = if c.cfg.algo == Algo::FixedSize { 0 } else { c.cfg.window };
     // first common boundary at least one window into S (the end of the stream is a boundary of both by construction
     // and is not counted as a synchronisation point)
     let q = b1.iter().find(|q| **q >= w && **q < s.len() && b2.contains(q)).copied();
     rec.class(format!("{:?}", c.cfg.algo));
     rec.class_if(p1.is_empty() || p2.is_empty(), "empty_prefix");
+    rec.class_if(c.r1 != ReadScript::full() || c.r2 != ReadScript::full(), "fragmented_delivery");
+    rec.class_if(c.r1 != c.r2, "streams_delivered_differently");
+    rec.class_if(s.len() > 1 << 20, "stream_longer_than_the_1MiB_refill_size");
     rec.class_if(p1.last() == Some(&0) || p2.last() == Some(&0), "prefix_ends_in_zero");
     let Some(q) = q else {
         rec.class("no_common_boundary");
@@ -100,13 +108,37 @@ fn case_strategy() -> impl Strategy<Value = Case> {
         prefix_strategy(),
         prefix_strategy(),
         prop_oneof![3 => source_strategy(6, 1200), 3 => zero_heavy_strategy(8, 200)],
+        prop_oneof![3 => Just(ReadScript::full()), 2 => read_script_strategy()],
+        prop_oneof![3 => Just(ReadScript::full()), 2 => read_script_strategy()],
     )
-        .prop_map(|(mut cfg, p1, p2, s)| {
+        .prop_map(|(mut cfg, p1, p2, s, r1, r2)| {
             // small filter bits so both streams cut often
             if cfg.algo != Algo::FixedSize && cfg.bits > 6 {
                 cfg.bits = 1 + cfg.bits % 6;
             }
-            Case { cfg, p1, p2, s }
+            Case { cfg, p1, p2, s, r1, r2 }
+        })
+}
+
+/// Streams longer than the chunker's 1 MiB refill size, read like a file (as much as the chunker asks for): the refill
+/// points fall at different places of S in the two streams because the prefixes differ in length.
+fn refill_strategy() -> impl Strategy<Value = Case> {
+    (
+        prop_oneof![Just(Algo::RollSum), Just(Algo::BuzHash)],
+        7u32..=12,
+        prop_oneof![Just(16usize), Just(32), Just(64), 1usize..=128],
+        prop_oneof![Just(0usize), 0usize..=8192, Just(2048usize)],
+        2048usize..=70_000,
+        (0u32..6000, any::<u32>()),
+        (0u32..6000, any::<u32>()),
+        (1_060_000u32..2_300_000, any::<u32>(), 0u32..3000),
+        prop_oneof![4 => Just(ReadScript::full()), 1 => Just(ReadScript { sizes: vec![65536], pending_every: 0 }), 1 => Just(ReadScript { sizes: vec![1000, 0], pending_every: 3 })],
+    )
+        .prop_map(|(algo, bits, window, min, extra, (n1, s1), (n2, s2), (ns, ss, z), r)| {
+            let max = (min + extra).max(window);
+            let cfg = ChunkerCfg { algo, bits, min, max, window };
+            let s = vec![Seg::Random { n: ns / 2, seed: ss }, Seg::Const { b: 0, n: z }, Seg::Random { n: ns - ns / 2, seed: ss ^ 0x55 }];
+            Case { cfg, p1: vec![Seg::Random { n: n1, seed: s1 }], p2: vec![Seg::Random { n: n2, seed: s2 }], s, r1: r.clone(), r2: r }
         })
 }
 
@@ -116,13 +148,14 @@ impl Prop for C10 {
     }
     fn meta(&self, _tier: Tier) -> Meta {
         Meta {
-            rule: "cases = (config, prefix P1, prefix P2, common suffix S): prefixes of 0..300 bytes incl. empty and prefixes ending in zero runs, S from the general and the zero-run-heavy source generators, filter bits <= 6 so both streams cut often; FixedSize with |P1| == |P2| (mod n). Oracle (metamorphic, the statement itself): chunk P1+S and P2+S with bitar's chunker; at the first position q >= window of S where both place a boundary, all later boundaries (relative to S) must coincide. Non-trivial = such a q exists before the end of S, the prefixes differ and >= 2 chunks follow q; distinct by Blake2 of the canonical case.".into(),
+            rule: "cases = (config, prefix P1, prefix P2, common suffix S): prefixes of 0..300 bytes incl. empty and prefixes ending in zero runs, S from the general and the zero-run-heavy source generators, filter bits <= 6 so both streams cut often; each stream delivered to the chunker in one piece (60%) or through its own read script (fixed 1/2/3/7-byte reads, mixed sizes up to 5000, Pending every k-th poll); FixedSize with |P1| == |P2| (mod n). Variant 'refill': common data of 1.06-2.3 MB (above the chunker's 1 MiB refill size) behind prefixes of 0..6000 bytes, windows 1..128, min 0..8192, filter bits 7..12. Oracle (metamorphic, the statement itself): chunk P1+S and P2+S with bitar's chunker; at the first position q >= window of S where both place a boundary, all later boundaries (relative to S) must coincide. Non-trivial = such a q exists before the end of S, the prefixes differ and >= 2 chunks follow q; distinct by Blake2 of the canonical case.".into(),
             ..Meta::default()
         }
     }
     fn run_worker(&self, cx: &mut WorkerCtx) {
         let t = cx.tier;
         cx.run_prop("resync", t.pick(3_000_000, 30_000_000), case_strategy(), run_case);
+        cx.run_prop("refill", t.pick(1600, 40_000), refill_strategy(), run_case);
     }
     fn replay(&self, _cx: &mut WorkerCtx, _variant: &str, case: &Value) -> Result<(), String> {
         let mut rec = CaseRec::default();
